@@ -7,6 +7,7 @@ import (
 	"verif/harness/sim"
 
 	sdk "github.com/pokt-network/posmint/types"
+	govTypes "github.com/pokt-network/posmint/x/gov/types"
 	posTypes "github.com/pokt-network/posmint/x/pos/types"
 )
 
@@ -158,6 +159,68 @@ func scUnstakeBurnRestake(w *sim.World) {
 	w.Run()
 }
 
+// scJailRaiseUnjail: stake twice the minimum -> miss votes until jailed -> governance raises pos/StakeMinimum above the
+// remaining stake -> unjail at the expiry (must be refused: below the minimum now in force) -> begin-unstake ->
+// maturity (must still be paid out).
+func scJailRaiseUnjail(w *sim.World) {
+	v := freeActor(w, 0)
+	if v == nil {
+		w.Run()
+		return
+	}
+	cp := sim.ParamsOf(w.View())
+	w.Reserved[v.AddrHex()] = true
+	defer delete(w.Reserved, v.AddrHex())
+	w.Force("stake-2min", stakeTx(w, v, 2*cp.Min))
+	if !w.Block() {
+		return
+	}
+	w.MissOverride[v.AddrHex()] = 100
+	var jailTime time.Time
+	for i := int64(0); i < cp.Window+8; i++ {
+		w.Step(1)
+		if !w.Block() {
+			return
+		}
+		if x := val(w, v); x != nil && x.Jailed {
+			jailTime = w.Now
+			break
+		}
+	}
+	delete(w.MissOverride, v.AddrHex())
+	x := val(w, v)
+	if x == nil || !x.Jailed || x.Status != 2 {
+		w.Run()
+		return
+	}
+	if o := w.ParamOwner("pos/StakeMinimum"); o != nil {
+		raised := 3 * cp.Min
+		w.Force("raise-minimum", func() *sim.TxSpec {
+			return w.Honest(o, govTypes.MsgChangeParam{FromAddress: o.Addr, ParamKey: "pos/StakeMinimum", ParamVal: sim.JSONOf(raised)})
+		})
+		w.Step(1)
+		if !w.Block() {
+			return
+		}
+	}
+	target := jailTime.Add(cp.JailDur)
+	if target.After(w.Now) {
+		w.Step(int64(target.Sub(w.Now) / time.Second))
+	}
+	w.Force("unjail-below-raised-minimum", unjailTx(w, v))
+	if !w.Block() {
+		return
+	}
+	if x := val(w, v); x != nil && x.Status == 2 && !x.Jailed {
+		// (only if the minimum could not be raised) it is back in the set
+		delete(w.Reserved, v.AddrHex())
+		w.Run()
+		return
+	}
+	delete(w.Reserved, v.AddrHex())
+	w.Run()
+}
+
 // scenarioFor returns a deterministic script for some case indices (coverage guarantees) together with the
 // parameter constraints the script needs, nil otherwise.
 func scenarioFor(prop string, i int, r *sim.Rand) (func(w *sim.World), func(p *sim.Profile)) {
@@ -174,6 +237,21 @@ func scenarioFor(prop string, i int, r *sim.Rand) (func(w *sim.World), func(p *s
 				p.Pos.MaxValidators = 100000
 				p.Pos.MinSignedPerWindow = sdk.NewDecWithPrec(5, 1)
 				p.Pos.SlashFractionDowntime = []sdk.Dec{sdk.NewDecWithPrec(1, 2), sdk.NewDecWithPrec(5, 1), sdk.NewDecWithPrec(1, 1)}[i/8%3]
+				p.Pos.DowntimeJailDuration = time.Duration([]int64{60, 120, 600}[i/8%3]) * time.Second
+			}
+		case 5:
+			if prop != "C09" && prop != "C06" && prop != "C05" {
+				break
+			}
+			return scJailRaiseUnjail, func(p *sim.Profile) {
+				p.CustomPos = true
+				if p.Pos.SignedBlocksWindow == 0 {
+					p.Pos = sim.SmallWindowPos(r)
+				}
+				p.MinStakeRaises = true
+				p.Pos.MaxValidators = 100000
+				p.Pos.MinSignedPerWindow = sdk.NewDecWithPrec(5, 1)
+				p.Pos.SlashFractionDowntime = sdk.NewDecWithPrec(1, 2)
 				p.Pos.DowntimeJailDuration = time.Duration([]int64{60, 120, 600}[i/8%3]) * time.Second
 			}
 		case 3:
